@@ -25,7 +25,8 @@ Reg == [c \in Clients |->
     [] c = "cn" -> [auth |-> "basic", app |-> "native", grants |-> {"code","refresh","device"},
                     rtypes |-> {"code"}, uris |-> {"ucn"}, postLogout |-> {}, at |-> "opaque"]]
 
-Users  == {"u1", "u2"}
+\* the names are the subjects themselves; one of them needs escaping wherever a subject is embedded in a URL-ish or delimiter-separated string
+Users  == {"u1", "u2@idp.example"}
 \* abstract URI names; "evil" is registered for nobody, "ucw" etc. belong to one client each
 \* "ucnEvil": another host with the SAME path as ucn (cn's loopback redirect URI)
 URIs   == {"ucw", "ucw2", "ucx", "ucp", "ucj", "ucn", "evil", "ucnEvil"}
